@@ -103,13 +103,27 @@ class Spaces:
 
 
 class PList:
-    __slots__ = ("lo", "hi", "empty")
+    """a list of pieces showing T[lo:hi] contiguously (if not `empty`), followed by `pad` blanks"""
+    __slots__ = ("lo", "hi", "empty", "pad")
 
-    def __init__(self, lo=None, hi=None, empty=True):
-        self.lo, self.hi, self.empty = lo, hi, empty
+    def __init__(self, lo=None, hi=None, empty=True, pad=0):
+        self.lo, self.hi, self.empty, self.pad = lo, hi, empty, lin(pad)
+
+    def parts(self):
+        return ([] if self.empty else [("cov", self.lo, self.hi)]) + ([("pad", self.pad)] if not (self.pad.is_const() and self.pad.c == 0) else [])
 
     def __repr__(self):
-        return "PList[]" if self.empty else f"PList[{self.lo}:{self.hi}]"
+        return ("PList[]" if self.empty else f"PList[{self.lo}:{self.hi}]") + (f"+pad({self.pad})" if not (self.pad.is_const() and self.pad.c == 0) else "")
+
+
+class PadPiece:
+    __slots__ = ("m",)
+
+    def __init__(self, m):
+        self.m = lin(m)
+
+    def __repr__(self):
+        return f"PadPiece({self.m})"
 
 
 class Text:
@@ -342,6 +356,18 @@ class TextInterp:
         if isinstance(e, ast.List):
             if not e.elts:
                 return [(PList(), st)]
+            if len(e.elts) == 1:
+                out = []
+                for v, s in self.ev(e.elts[0], st):
+                    if is_marker(v):
+                        out.append((v, s))
+                    elif isinstance(v, Piece):
+                        out.append((PList(v.lo, v.hi, False), s))
+                    elif isinstance(v, PadPiece):
+                        out.append((PList(pad=v.m), s))
+                    else:
+                        raise Unsupported(f"list of {v!r}")
+                return out
             raise Unsupported("list literal")
         if isinstance(e, ast.Subscript):
             out = []
@@ -380,6 +406,8 @@ class TextInterp:
             return Str(v.lo, v.hi, v.owner)
         if isinstance(v, TypeSelf) and name == "__name__":
             return Opaque("name")
+        if isinstance(v, Opaque) and v.tag == "cls" and name == "Chunk":
+            return Opaque("cls.Chunk")
         raise Unsupported(f"attribute .{name} of {v!r}")
 
     def floordiv(self, a, d, st):
@@ -426,6 +454,17 @@ class TextInterp:
                 if self.feasible(s_neg):
                     out.append((Spaces(0, kind), s_neg))
                 return out
+        if isinstance(op, ast.Add) and isinstance(b, PList) and (isinstance(a, PList) or isinstance(a, Opaque) and a.tag == "self.chunks"):
+            left = a if isinstance(a, PList) else PList(lin(0), N, False)
+            if not (left.pad.is_const() and left.pad.c == 0) and not b.empty:
+                return [(("ALARM", "text pieces are placed after padding"), st)]
+            if b.empty:
+                return [(PList(left.lo, left.hi, left.empty, left.pad + b.pad), st)]
+            if left.empty:
+                return [(PList(b.lo, b.hi, False, b.pad), st)]
+            if self.proves(st, eq(left.hi, b.lo)):
+                return [(PList(left.lo, b.hi, False, b.pad), st)]
+            return [(("ALARM", f"concatenated lists are not contiguous ({left.hi} then {b.lo})"), st)]
         if isinstance(op, ast.Add):
             pa, pb = self._text_parts(a), self._text_parts(b)
             if pa is not None and pb is not None:
@@ -443,6 +482,10 @@ class TextInterp:
             return [("cov", lin(0), N)]
         if isinstance(v, Const) and v.v == "":
             return []
+        if isinstance(v, PList):
+            return v.parts()
+        if isinstance(v, Opaque) and v.tag == "self.chunks":
+            return [("cov", lin(0), N)]
         return None
 
     def norm_bound(self, b, m, st, default):
@@ -604,7 +647,7 @@ class TextInterp:
             for v, s in self.ev(e.args[0].value, st):
                 if not isinstance(v, PList):
                     raise Unsupported(f"constructor from *{v!r}")
-                out.append((Text([] if v.empty else [("cov", v.lo, v.hi)]), s))
+                out.append((Text(v.parts()), s))
             return out
         if len(e.args) == 1:
             out = []
@@ -651,10 +694,17 @@ class TextInterp:
                 if isinstance(v, tuple):
                     out.append((v, s))
                     continue
-                if not isinstance(v, Piece):
-                    raise Unsupported(f"append({v!r})")
                 cur = s.env[e.func.value.id]
                 s2 = s.copy()
+                if isinstance(v, PadPiece):
+                    s2.env[e.func.value.id] = PList(cur.lo, cur.hi, cur.empty, cur.pad + v.m)
+                    out.append((NONE, s2))
+                    continue
+                if not isinstance(v, Piece):
+                    raise Unsupported(f"append({v!r})")
+                if not (cur.pad.is_const() and cur.pad.c == 0) and not self.proves(s, eq(cur.pad, 0)):
+                    out.append((("ALARM", f"a text piece is appended to `{e.func.value.id}` after padding"), s))
+                    continue
                 if cur.empty:
                     s2.env[e.func.value.id] = PList(v.lo, v.hi, False)
                 elif self.proves(s, eq(cur.hi, v.lo)):
@@ -664,6 +714,24 @@ class TextInterp:
                                           f"(previous end {cur.hi}, new start {v.lo}): characters are dropped or repeated"), s))
                     continue
                 out.append((NONE, s2))
+            return out
+        if name == "make_plain" and len(e.args) == 1:
+            out = []
+            for v, s in self.ev(e.args[0], st):
+                if is_marker(v):
+                    out.append((v, s))
+                elif isinstance(v, Spaces) and v.kind == "pad":
+                    out.append((PadPiece(v.m), s))
+                else:
+                    raise Unsupported(f"make_plain({v!r})")
+            return out
+        if name == "calc_chunks_len" and len(e.args) == 1:
+            out = []
+            for v, s in self.ev(e.args[0], st):
+                if isinstance(v, Opaque) and v.tag == "self.chunks":
+                    out.append((Int(N), s))
+                else:
+                    raise Unsupported(f"calc_chunks_len({v!r})")
             return out
         if isinstance(recv, Const) and isinstance(recv.v, str) and name in ("isdigit",):
             return [(Opaque("bool"), st)]
@@ -751,7 +819,7 @@ class TextInterp:
                 out.append((False, s))
             elif isinstance(v, Const):
                 out.append((bool(v.v), s))
-            elif isinstance(v, PList):
+            elif isinstance(v, PList) and v.pad.is_const() and v.pad.c == 0:
                 out.append((not v.empty, s))
             else:
                 raise Unsupported(f"truth of {v!r} in {norm(t)[:50]}")
@@ -883,9 +951,14 @@ class TextInterp:
         it = n.iter
         if n.orelse:
             raise Unsupported("for-else")
-        if not (isinstance(it, ast.Call) and call_name(it) == "enumerate" and len(it.args) == 1 and norm(it.args[0]) == "self.chunks"
+        def is_chunks(x):
+            if norm(x) == "self.chunks":
+                return True
+            v = st.env.get(x.id) if isinstance(x, ast.Name) else None
+            return isinstance(v, Opaque) and v.tag == "self.chunks"
+        if not (isinstance(it, ast.Call) and call_name(it) == "enumerate" and len(it.args) == 1 and is_chunks(it.args[0])
                 and isinstance(n.target, ast.Tuple) and len(n.target.elts) == 2 and all(isinstance(x, ast.Name) for x in n.target.elts)) \
-                and not (norm(it) == "self.chunks" and isinstance(n.target, ast.Name)):
+                and not (is_chunks(it) and isinstance(n.target, ast.Name)):
             raise Unsupported(f"for loop over {norm(it)[:40]}")
         j = f"$j{n.lineno}"
         s0 = st.copy()
@@ -938,6 +1011,10 @@ class TextInterp:
         return cont, exits
 
     def loop(self, node, st, test, enter, body, step=None, extra_modified=()):
+        """Peel one iteration, then compute inductive invariants Houdini-style.  The continuing states are partitioned by
+        which loop-modified integers hold a constant (e.g. `remaining = 0` after the last piece): each partition gets its own
+        abstract head and invariant; states produced by one partition's iteration are checked against the invariant of the
+        partition they fall into."""
         self.stats["loops"] += 1
         cont, exits = self._iteration(st, test, enter, body, step)
         if not cont:
@@ -952,49 +1029,15 @@ class TextInterp:
             for x in ast.walk(node.target):
                 if isinstance(x, ast.Name):
                     modified.add(x.id)
-        names = sorted(set(cont[0].env))
-        for s in cont:
-            if sorted(s.env) != names:
-                names = sorted(set(names) & set(s.env))
-        # ---- abstract head state: fresh symbols for everything the body may change
-        shape = cont[0]
-        head = State({}, [], {})
-        common = None
-        for s in cont:
-            ks = {c.key(): c for c in s.facts}
-            common = ks if common is None else {k: v for k, v in common.items() if k in ks}
-        head.facts = list(common.values())
-        for s in cont:
-            for k, v in s.terms.items():
-                head.terms.setdefault(k, v)
-        for nm in names:
-            v = shape.env[nm]
-            if nm not in modified:
-                if any(type(s.env[nm]) is not type(v) for s in cont):
-                    raise Unsupported(f"loop: `{nm}` has different kinds on different paths")
-                head.env[nm] = v
-                continue
-            if any(type(s.env[nm]) is not type(v) for s in cont):
-                raise Unsupported(f"loop: `{nm}` has different kinds on different paths")
-            if isinstance(v, Int):
-                head.env[nm] = Int(fresh(nm))
-            elif isinstance(v, Piece):
-                head.env[nm] = Piece(fresh(nm + ".owner"), fresh(nm + ".lo"), fresh(nm + ".hi"))
-            elif isinstance(v, PList):
-                if any(s.env[nm].empty for s in cont):
-                    if all(s.env[nm].empty for s in cont):
-                        head.env[nm] = PList()
-                        continue
-                    raise Unsupported(f"loop: list `{nm}` is empty on some paths only")
-                head.env[nm] = PList(fresh(nm + ".lo"), fresh(nm + ".hi"), False)
-            elif isinstance(v, (NoneV, Const, Opaque, SelfV, SliceV)):
-                head.env[nm] = v
-            else:
-                raise Unsupported(f"loop: cannot generalise `{nm}` = {v!r}")
-        # ---- candidate invariants
         entry_vals = {nm + "@entry": v.l for nm, v in st.env.items() if isinstance(v, Int) and nm in modified}
 
-        def atoms(s):
+        targets = {x.id for x in ast.walk(node.target) if isinstance(x, ast.Name)} if isinstance(node, ast.For) else set()
+
+        def sig(s):
+            return tuple(sorted((nm, v.l.c) for nm, v in s.env.items()
+                                if nm in modified and nm not in targets and not nm.startswith("$j") and isinstance(v, Int) and v.l.is_const()))
+
+        def atoms(s, names):
             out = {"0": lin(0), "n": N, "k": K}
             out.update(entry_vals)
             for nm in names:
@@ -1009,35 +1052,15 @@ class TextInterp:
                     A, L = self.term(s, v.owner)
                     out[f"A({nm}.owner)"] = A
                     out[f"end({nm}.owner)"] = A + L
-                elif isinstance(v, PList) and not v.empty:
-                    out[nm + ".lo"], out[nm + ".hi"] = v.lo, v.hi
+                elif isinstance(v, PList):
+                    if not v.empty:
+                        out[nm + ".lo"], out[nm + ".hi"] = v.lo, v.hi
+                    if not (v.pad.is_const() and v.pad.c == 0):
+                        out[nm + ".pad"] = v.pad
             return out
-        head_atoms = atoms(head)
-        cont_atoms = [atoms(s) for s in cont]
-        keys = sorted(k for k in head_atoms if all(k in a for a in cont_atoms))
-        mod_keys = {k for k in keys if any(k == m or k.startswith(m + ".") or k == f"A({m})" or k.startswith(f"A({m}.") or k.startswith(f"end({m}.") for m in modified)}
-        sats = [self.saturate(s) for s in cont]
-        models = [sy.model() or {} for sy in sats]
 
-        def val(l, m):
-            return l.c + sum(c * m.get(v, 0) for v, c in l.t.items())
-        cands = []
-        for a, b in itertools.combinations(keys, 2):
-            if a in mod_keys or b in mod_keys:
-                cands.append(("eq", a, b, None))
-        for a, b in itertools.permutations(keys, 2):
-            if a in mod_keys or b in mod_keys:
-                cands.append(("le", a, b, None))
-                cands.append(("lt", a, b, None))
-        for a, b in itertools.combinations(keys, 2):
-            for c in keys:
-                if c in (a, b) or "0" in (a, b, c):
-                    continue
-                if sum(x in mod_keys for x in (a, b, c)) >= 2:
-                    cands.append(("sum", a, b, c))
-        self.stats["candidates"] += len(cands)
-
-        def con(kind, a, b, c, at):
+        def con(cd, at):
+            kind, a, b, c = cd
             if kind == "eq":
                 return eq(at[a], at[b])
             if kind == "le":
@@ -1045,6 +1068,9 @@ class TextInterp:
             if kind == "lt":
                 return lt(at[a], at[b])
             return eq(at[a] + at[b], at[c])
+
+        def val(l, m):
+            return l.c + sum(c * m.get(v, 0) for v, c in l.t.items())
 
         def holds_at_model(cd, at, m):
             kind, a, b, c = cd
@@ -1055,43 +1081,134 @@ class TextInterp:
             if kind == "lt":
                 return val(at[a], m) < val(at[b], m)
             return val(at[a], m) + val(at[b], m) == val(at[c], m)
-        live = [cd for cd in cands if all(holds_at_model(cd, at, m) for at, m in zip(cont_atoms, models))]
-        if globals().get("DEBUG"):
-            print("keys", keys, "mod", sorted(mod_keys))
-            print("after model filter", len(live), [cd for cd in live if cd[0] in ("eq", "sum")][:40])
-        live = [cd for cd in live if all(self._q(sat, con(*cd, at)) for at, sat in zip(cont_atoms, sats))]
-        if globals().get("DEBUG"):
-            print("after entail filter", len(live), [cd for cd in live if cd[0] in ("eq", "sum")][:40])
-        # drop consequences of equalities among unmodified atoms only (noise) - keep everything else
-        # ---- Houdini
-        for _round in range(12):
-            hs = head.copy()
-            hs.facts = head.facts + [con(*cd, head_atoms) for cd in live]
-            # make sure the ghost terms of the head atoms exist in the head state
-            cont2, exits2 = self._iteration(hs, test, enter, body, step)
-            keep = []
-            ats2 = [atoms(s) for s in cont2]
-            sats2 = [self.saturate(s) for s in cont2]
-            for cd in live:
-                ok = True
-                for at, sat in zip(ats2, sats2):
-                    if any(x is not None and x not in at for x in cd[1:]):
-                        ok = False
-                        break
-                    if not self._q(sat, con(*cd, at)):
-                        ok = False
-                        break
-                if ok:
-                    keep.append(cd)
-            if len(keep) == len(live):
+
+        class Part:
+            pass
+
+        def build(P):
+            states = P.states
+            names = sorted(set(states[0].env))
+            for s in states:
+                names = sorted(set(names) & set(s.env))
+            shape = states[0]
+            head = State({}, [], {})
+            common = None
+            for s in states:
+                ks = {c.key(): c for c in s.facts}
+                common = ks if common is None else {k: v for k, v in common.items() if k in ks}
+            head.facts = list(common.values())
+            for s in states:
+                for k, v in s.terms.items():
+                    head.terms.setdefault(k, v)
+            for nm in names:
+                v = shape.env[nm]
+                if any(type(s.env[nm]) is not type(v) for s in states):
+                    raise Unsupported(f"loop: `{nm}` has different kinds on different paths")
+                if nm not in modified:
+                    head.env[nm] = v
+                elif isinstance(v, Int):
+                    head.env[nm] = Int(fresh(nm))
+                elif isinstance(v, Piece):
+                    head.env[nm] = Piece(fresh(nm + ".owner"), fresh(nm + ".lo"), fresh(nm + ".hi"))
+                elif isinstance(v, PList):
+                    if any(s.env[nm].empty for s in states):
+                        if all(s.env[nm].empty for s in states) and all(s.env[nm].pad.is_const() and s.env[nm].pad.c == 0 for s in states):
+                            head.env[nm] = PList()
+                            continue
+                        raise Unsupported(f"loop: list `{nm}` is empty on some paths only")
+                    padded = any(not (s.env[nm].pad.is_const() and s.env[nm].pad.c == 0) for s in states)
+                    head.env[nm] = PList(fresh(nm + ".lo"), fresh(nm + ".hi"), False, fresh(nm + ".pad") if padded else 0)
+                elif isinstance(v, (NoneV, Const, Opaque, SelfV, SliceV)):
+                    head.env[nm] = v
+                else:
+                    raise Unsupported(f"loop: cannot generalise `{nm}` = {v!r}")
+            P.names = names
+            P.head = head
+            P.head_atoms = atoms(head, names)
+            st_atoms = [atoms(s, names) for s in states]
+            keys = sorted(k for k in P.head_atoms if all(k in a for a in st_atoms))
+            mod_keys = {k for k in keys if any(k == m or k.startswith(m + ".") or k == f"A({m})" or k.startswith(f"A({m}.") or k.startswith(f"end({m}.") for m in modified)}
+            sats = [self.saturate(s) for s in states]
+            models = [sy.model() or {} for sy in sats]
+            cands = []
+            for a, b in itertools.combinations(keys, 2):
+                if a in mod_keys or b in mod_keys:
+                    cands.append(("eq", a, b, None))
+            for a, b in itertools.permutations(keys, 2):
+                if a in mod_keys or b in mod_keys:
+                    cands.append(("le", a, b, None))
+                    cands.append(("lt", a, b, None))
+            for a, b in itertools.combinations(keys, 2):
+                for c in keys:
+                    if c in (a, b) or "0" in (a, b, c):
+                        continue
+                    if sum(x in mod_keys for x in (a, b, c)) >= 2:
+                        cands.append(("sum", a, b, c))
+            self.stats["candidates"] += len(cands)
+            live = [cd for cd in cands if all(holds_at_model(cd, at, m) for at, m in zip(st_atoms, models))]
+            P.live = [cd for cd in live if all(self._q(sat, con(cd, at)) for at, sat in zip(st_atoms, sats))]
+
+        parts = {}
+        for s in cont:
+            P = parts.get(sig(s))
+            if P is None:
+                P = parts[sig(s)] = Part()
+                P.states, P.head, P.exits, P.dirty = [], None, [], True
+            P.states.append(s)
+        for _round in range(30):
+            changed = False
+            for key in list(parts):
+                P = parts[key]
+                if P.head is None:
+                    build(P)
+                    P.dirty = True
+                if not P.dirty:
+                    continue
+                P.dirty = False
+                changed = True
+                hs = P.head.copy()
+                hs.facts = P.head.facts + [con(cd, P.head_atoms) for cd in P.live]
+                cont2, exits2 = self._iteration(hs, test, enter, body, step)
+                P.exits = exits2
+                for s2 in cont2:
+                    T = parts.get(sig(s2))
+                    if T is None:
+                        if len(parts) >= 5:
+                            raise Unsupported("loop: too many partitions")
+                        T = parts[sig(s2)] = Part()
+                        T.states, T.head, T.exits, T.dirty = [s2], None, [], True
+                        changed = True
+                        continue
+                    if T.head is None:
+                        T.states.append(s2)
+                        continue
+                    if any(nm not in s2.env for nm in T.names):
+                        raise Unsupported("loop: variable sets differ")
+                    at = atoms(s2, T.names)
+                    sat = self.saturate(s2)
+                    have = {c.key() for c in s2.facts}
+                    kept_facts = [c for c in T.head.facts if c.key() in have or self._q(sat, c)]
+                    if len(kept_facts) != len(T.head.facts):
+                        T.head.facts = kept_facts
+                        T.head._sys = None
+                        T.dirty = True
+                        changed = True
+                    keep = [cd for cd in T.live if all(x is None or x in at for x in cd[1:]) and self._q(sat, con(cd, at))]
+                    if len(keep) != len(T.live):
+                        T.live = keep
+                        T.dirty = True
+                        changed = True
+            if not changed:
                 break
-            live = keep
         else:
             raise Unsupported("loop invariant did not stabilise")
-        self.stats["invariants"] += len(live)
-        self.invariants.append((getattr(node, "lineno", 0), [f"{a} {'==' if k == 'eq' else '<=' if k == 'le' else '<' if k == 'lt' else '+'} {b}" + (f" == {c}" if k == "sum" else "")
-                                                            for k, a, b, c in live if k in ("eq", "sum")][:40]))
-        return exits + exits2
+        out = list(exits)
+        for key, P in parts.items():
+            out.extend(P.exits)
+            self.stats["invariants"] += len(P.live)
+            self.invariants.append((f"line {getattr(node, 'lineno', 0)}" + (f" [{', '.join(f'{a}={b}' for a, b in key)}]" if key else ""),
+                                    [f"{a} {'==' if k == 'eq' else '+'} {b}" + (f" == {c}" if k == "sum" else "") for k, a, b, c in P.live if k in ("eq", "sum") and "@entry +" not in f"{a} +" and not a.endswith("@entry")][:40]))
+        return out
 
 
 # ---------------------------------------------------------------------------------------------------- specifications
